@@ -204,9 +204,10 @@ const (
 	styleMixed
 	styleMethod
 	styleOp
+	styleClass // overload declared in a normal class file K<set>.gox (d.IsClass)
 )
 
-var styleNames = []string{"lit", "named", "mixed", "method", "op"}
+var styleNames = []string{"lit", "named", "mixed", "method", "op", "class"}
 
 type oset struct {
 	idx        int
@@ -241,7 +242,7 @@ func randTy(r *vh.Rand) ty { return universe[r.Intn(len(universe))] }
 var binOps = []string{"+", "-", "*", "/", "%", "&", "|", "^", "<<", ">>", "&^", "==", "!=", "<", "<=", ">", ">="}
 
 func genSet(r *vh.Rand, idx int, tier string) oset {
-	s := oset{idx: idx, style: r.Intn(5), underscore: r.Chance(30)}
+	s := oset{idx: idx, style: r.Intn(6), underscore: r.Chance(30)}
 	wantDist := r.Chance(78)
 	n := 2 + r.Intn(3)
 	big := 6
@@ -266,7 +267,7 @@ func genSet(r *vh.Rand, idx int, tier string) oset {
 				c.kind = 'L'
 			case styleNamed:
 				c.kind = 'I'
-			case styleMixed:
+			case styleMixed, styleClass:
 				c.kind = "LI"[r.Intn(2)]
 			case styleMethod:
 				c.kind = 'M'
@@ -405,6 +406,9 @@ func (s *oset) declName(p int) string {
 	return fmt.Sprintf("ov%dp%d", s.idx, p)
 }
 func (s *oset) recvName(p int) string {
+	if s.style == styleClass {
+		return fmt.Sprintf("K%d", s.idx)
+	}
 	if s.style == styleOp {
 		if s.underscore {
 			return fmt.Sprintf("Q_%dp%d", s.idx, p)
@@ -439,7 +443,7 @@ func (s *oset) declText(k int, order []int) string {
 	var b strings.Builder
 	name := s.declName(k)
 	switch s.style {
-	case styleLit, styleNamed, styleMixed:
+	case styleLit, styleNamed, styleMixed, styleClass:
 		fmt.Fprintf(&b, "func %s = (\n", name)
 		for _, ci := range order {
 			c := s.cands[ci]
@@ -486,7 +490,7 @@ func (s *oset) declText(k int, order []int) string {
 func (s *oset) sharedText() string {
 	var b strings.Builder
 	switch s.style {
-	case styleNamed, styleMixed:
+	case styleNamed, styleMixed, styleClass:
 		for _, c := range s.cands {
 			if c.kind == 'I' {
 				fmt.Fprintf(&b, "func %s(%s) { hit = %d }\n", s.fnName(c, 0), paramList(c.params, ""), c.id)
@@ -512,7 +516,7 @@ func (s *oset) callText(k, ci int, args []ty) string {
 	}
 	var call string
 	switch s.style {
-	case styleMethod:
+	case styleMethod, styleClass:
 		call = fmt.Sprintf("v%s.%s(%s)", s.recvName(k), name, strings.Join(vs, ", "))
 	case styleOp:
 		call = fmt.Sprintf("_ = %s %s %s", vs[0], s.op, vs[1])
@@ -536,13 +540,20 @@ func (s *oset) text(perms [][]int) (decls, calls string) {
 	return d.String(), c.String()
 }
 
-func program(sets []*oset, perms map[int][][]int) string {
+// program: the package as file name -> source (main.xgo and one K<set>.gox per class-style set)
+func program(sets []*oset, perms map[int][][]int) map[string]string {
+	files := map[string]string{}
 	var b strings.Builder
 	b.WriteString(prelude())
 	var main strings.Builder
 	for _, s := range sets {
 		d, c := s.text(perms[s.idx])
-		b.WriteString(d)
+		if s.style == styleClass {
+			files[s.recvName(0)+".gox"] = d
+			fmt.Fprintf(&b, "var v%s = new(%s)\n", s.recvName(0), s.recvName(0))
+		} else {
+			b.WriteString(d)
+		}
 		b.WriteString(c)
 		for k := range perms[s.idx] {
 			fmt.Fprintf(&main, "calls%dp%d()\n", s.idx, k)
@@ -550,8 +561,11 @@ func program(sets []*oset, perms map[int][][]int) string {
 	}
 	b.WriteString("\n")
 	b.WriteString(main.String())
-	return b.String()
+	files["main.xgo"] = b.String()
+	return files
 }
+
+func compileProgram(files map[string]string) ([]byte, error) { return compcx.CompileDir(files) }
 
 // ---------------------------------------------------------------------------------------------
 // case lines
@@ -562,7 +576,11 @@ func (s *oset) encCase(k int, order []int) string {
 	name := s.declName(k)
 	recv := "none"
 	isOp := "0"
+	isClass := "0"
 	switch s.style {
+	case styleClass:
+		recv = hx(s.recvName(k))
+		isClass = "1"
 	case styleMethod:
 		recv = hx(s.recvName(k))
 	case styleOp:
@@ -582,7 +600,7 @@ func (s *oset) encCase(k int, order []int) string {
 			parts[i] = "I:" + hx(s.fnName(c, k))
 		}
 	}
-	return fmt.Sprintf("c10enc\t%s\t%s\t%s\t0\t%s", hx(name), recv, isOp, strings.Join(parts, ","))
+	return fmt.Sprintf("c10enc\t%s\t%s\t%s\t%s\t%s", hx(name), recv, isOp, isClass, strings.Join(parts, ","))
 }
 
 func (s *oset) dispCase(order []int, args []ty) string {
@@ -680,13 +698,13 @@ func runSets(sets []*oset, o *vh.Out, workdir string) {
 		perms[s.idx] = permutations(len(s.cands))
 	}
 	src := program(sets, perms)
-	out, err := compcx.CompileFile("main.xgo", src)
+	out, err := compileProgram(src)
 	if err != nil {
 		// attribute: compile every set alone
 		var good []*oset
 		for _, s := range sets {
 			one := program([]*oset{s}, perms)
-			if _, e := compcx.CompileFile("main.xgo", one); e != nil {
+			if _, e := compileProgram(one); e != nil {
 				o.Oracle("compile-error-"+styleNames[s.style], s.dispCase(perms[s.idx][0], s.calls[0]),
 					fmt.Sprintf("set %d cands=%s: %v", s.idx, candsCode(s.cands), firstLine(e.Error())))
 				o.Count("set_compile_error")
@@ -709,7 +727,7 @@ func runSets(sets []*oset, o *vh.Out, workdir string) {
 			return
 		}
 		src = program(sets, perms)
-		if out, err = compcx.CompileFile("main.xgo", src); err != nil {
+		if out, err = compileProgram(src); err != nil {
 			o.Oracle("compile-error-whole-program", "program", firstLine(err.Error()))
 			return
 		}
@@ -726,7 +744,7 @@ func runSets(sets []*oset, o *vh.Out, workdir string) {
 	}
 	r0 := res[0]
 	if r0.BuildErr != "" || r0.Exit != 0 || r0.Timeout {
-		os.WriteFile(filepath.Join(workdir, "c10_failed_main.xgo"), []byte(src), 0o644)
+		os.WriteFile(filepath.Join(workdir, "c10_failed_main.xgo"), []byte(src["main.xgo"]), 0o644)
 		o.Oracle("generated-go-does-not-run", "program", r0.String())
 		return
 	}
@@ -749,7 +767,7 @@ func runSets(sets []*oset, o *vh.Out, workdir string) {
 		for k, order := range ps {
 			recv, opn := "", ""
 			dn := s.declName(k)
-			if s.style == styleMethod || s.style == styleOp {
+			if s.style == styleMethod || s.style == styleOp || s.style == styleClass {
 				recv = s.recvName(k)
 			}
 			if s.style == styleOp {
@@ -1007,7 +1025,7 @@ func runNoMatch(r *vh.Rand, o *vh.Out, n int) {
 			ps := map[int][][]int{0: {order}}
 			_ = k
 			src := program([]*oset{&s}, ps)
-			_, err := compcx.CompileFile("main.xgo", src)
+			_, err := compileProgram(src)
 			impl := fmt.Sprintf("D=%d R=none", b2i(s.dist))
 			cl := s.dispCase(order, args)
 			if err == nil {
@@ -1383,7 +1401,7 @@ func parseDispCase(f []string) (*oset, []ty, bool) {
 			c.kind = 'L'
 		case styleNamed:
 			c.kind = 'I'
-		case styleMixed:
+		case styleMixed, styleClass:
 			c.kind = "LI"[len(s.cands)%2]
 		case styleMethod:
 			c.kind = 'M'
@@ -1424,7 +1442,7 @@ func replayDisp(s *oset, o *vh.Out, workdir string) {
 	}
 	if !accept {
 		src := program([]*oset{s}, map[int][][]int{0: {order}})
-		_, err := compcx.CompileFile("main.xgo", src)
+		_, err := compileProgram(src)
 		impl := fmt.Sprintf("D=%d R=none", b2i(s.dist))
 		if err == nil {
 			impl = fmt.Sprintf("D=%d R=accepted", b2i(s.dist))
